@@ -114,8 +114,12 @@ func checkLookups(res *racResult, w *racWorld, h racHistory, dead []Hash, tag st
 
 func deadHashes(w *racWorld) []Hash {
 	var d []Hash
+	liveVal := map[Hash]bool{}
+	for _, hv := range w.spec.alive {
+		liveVal[hv] = true
+	}
 	for i := 0; i < int(w.spec.n); i++ {
-		if _, ok := w.spec.alive[uint64(i)]; !ok {
+		if _, ok := w.spec.alive[uint64(i)]; !ok && !liveVal[racLeaf(i)] {
 			d = append(d, racLeaf(i))
 		}
 	}
